@@ -167,3 +167,44 @@ def ufunc_pinv(func, args, icd, ocd, kwargs):
     r = ufunc_inv(func, args, icd, ocd, kwargs)
     r.lazy = False
     return r
+
+
+def ufunc_colnorm(func, args, icd, ocd, kwargs):
+    """np.linalg.norm(x, axis=-1) through xr.apply_ufunc with one core dim: Euclidean norm along that dim"""
+    (A,) = args
+    (core,) = icd
+    (d,) = core
+    if d not in A.dims:
+        raise ValueError(f"operand to apply_ufunc has required core dimensions {list(core)}, but some are missing: {A.dims}")
+    if len(A.dims) != 2 or kwargs.get("axis") != -1:
+        raise Unsupported("norm variant")
+    (keep,) = [x for x in A.dims if x != d]
+    M = A.transpose(d, keep).term
+    g = tm.dg(tm.mul(tm.H(M), M))
+    g = tm.T(g.op, g.args, g.rows, g.cols, g.props | {"real", "herm", "nonneg"})
+    return SymDA(tm.dpow(g, 0.5), (keep,), {keep: A._ext[keep]}, {keep: A._cid.get(keep)}, False, A.lazy)
+
+
+def ufunc_eigh(func, args, icd, ocd, kwargs):
+    """np.linalg.eigh through xr.apply_ufunc: for a real symmetric A (only one triangle is read: symmetry is the
+    caller's obligation, recorded in notes['eigh_args']) returns ascending real eigenvalues w and an orthogonal
+    matrix Q of eigenvectors, A Q = Q diag(w)."""
+    (A,) = args
+    core = tuple(icd[0])
+    At = _two(A, core)
+    k = At._ext[core[0]]
+    if not decide(k.z == At._ext[core[1]].z):
+        raise ValueError("Last 2 dimensions of the array must be square")
+    c = ctx()
+    tag = fresh("eigh")
+    c.events.append(("call", {"callee": "np.linalg.eigh(apply_ufunc)", "kwargs": dict(kwargs)}))
+    pr = () if A.cplx else ("real",)
+    Asym = tm.sym(f"A.{tag}", k, k, pr + ("herm",))
+    c.notes.setdefault("eigh_args", []).append((Asym, At.term))
+    Q = tm.sym(f"Q.{tag}", k, k, pr + ("unit", "inv"))
+    w = tm.sym(f"w.{tag}", k, k, ("diag", "real", "herm"))
+    c.hyps += [(tm.mul(Asym, Q), tm.mul(Q, w), "eigh: A Q = Q w"),
+               (tm.mul(tm.H(Q), Asym), tm.mul(w, tm.H(Q)), "eigh: Q^H A = w Q^H")]
+    ow, oq = tuple(ocd[0]), tuple(ocd[1])
+    return (SymDA(w, ow, {ow[0]: k}, None, False, A.lazy, tags=("asc",)),
+            SymDA(Q, oq, {oq[0]: k, oq[1]: k}, {oq[0]: At._cid.get(core[0])}, A.cplx, A.lazy))
